@@ -1,5 +1,207 @@
-import Adb.Spec.Verdict
-/- C04 — theorems follow. -/
+import Adb.Lemmas.Live
+/-
+  C04 — Exception, important and badfilter precedence; rule addition is monotone.
+  Stated on the rule-by-rule reference verdict (`Spec.verdicts`); C01 relates the engine to it.
+-/
 namespace Adb.Net
-theorem placeholder_C04 : True := trivial
+open Adb Adb.Net.Spec
+
+/-- some loaded rule of category `c` matches the request under the tag set -/
+def hit (rules : List Rule) (c : Cat) (q : Request) (tags : List Str) : Bool :=
+  !(hits ((live rules).filter (fun f => cat f == c)) q tags).isEmpty
+
+/-- "the request is reported blocked" -/
+def blocked (rules : List Rule) (tags : List Str) (q : Request) : Bool :=
+  q.isSupported &&
+    (let important := hit rules .important q tags
+     let blocking := important || hit rules .tagged q tags || hit rules .normal q []
+     let exception := !important && blocking && hit rules .exception q tags
+     blocking && !exception)
+
+/-- every admissible verdict reports `blocked` in its `matched` field -/
+theorem verdict_matched_eq (rules : List Rule) (tags : List Str) (st : Store) (q : Request)
+    (v : Verdict) (hv : v ∈ verdicts rules tags st q) : v.matched = blocked rules tags q := by
+  unfold verdicts at hv
+  unfold blocked hit
+  cases hs : q.isSupported with
+  | false => simp [hs] at hv; subst hv; simp
+  | true =>
+    simp only [hs, Bool.not_true, Bool.false_eq_true, if_false, List.mem_map] at hv
+    obtain ⟨rd, _, rfl⟩ := hv
+    simp
+
+theorem hit_iff (rules : List Rule) (c : Cat) (q : Request) (tags : List Str) :
+    hit rules c q tags = true ↔
+      ∃ f ∈ live rules, cat f = c ∧ f.matches q = true ∧ tagOk f tags = true := by
+  unfold hit hits
+  rw [Bool.not_eq_true', List.isEmpty_eq_false_iff_exists_mem]
+  constructor
+  · rintro ⟨f, hf⟩
+    simp only [List.mem_filter, Bool.and_eq_true, beq_iff_eq] at hf
+    exact ⟨f, hf.1.1, hf.1.2, hf.2.1, hf.2.2⟩
+  · rintro ⟨f, h1, h2, h3, h4⟩
+    exact ⟨f, by simp only [List.mem_filter, Bool.and_eq_true, beq_iff_eq]; exact ⟨⟨h1, h2⟩, h3, h4⟩⟩
+
+/-- **precedence**: a (supported) request is blocked iff an `$important` blocking rule matches, or
+    some blocking rule matches and no active exception rule matches. -/
+theorem blocked_iff_spec (rules : List Rule) (tags : List Str) (q : Request) :
+    blocked rules tags q = true ↔ q.isSupported = true ∧
+      (hit rules .important q tags = true ∨
+       ((hit rules .important q tags = true ∨ hit rules .tagged q tags = true ∨ hit rules .normal q [] = true) ∧
+        hit rules .exception q tags = false)) := by
+  unfold blocked
+  cases q.isSupported <;> cases hit rules .important q tags <;> cases hit rules .tagged q tags <;>
+    cases hit rules .normal q [] <;> cases hit rules .exception q tags <;> simp
+
+/-! ### badfilter -/
+
+/-- **a `$badfilter` rule never matches anything** -/
+theorem badfilter_never_matches (r : Rule) (q : Request) (h : r.isBadfilter = true) : r.matches q = false := by
+  simp [Rule.matches, checkOptions, h]
+
+/-- … and is never loaded -/
+theorem badfilter_not_live (rules : List Rule) (r : Rule) (h : r.isBadfilter = true) : r ∉ live rules := by
+  unfold live; simp [h]
+
+/-- **`z$badfilter` disables `y` iff they have the same pattern and the same matching options**
+    (`key` = modifier, mask without the badfilter bit, pattern, hostname, included and excluded domains). -/
+theorem badfilter_cancels_iff (rules : List Rule) (y : Rule) (hy : y ∈ rules) (hb : y.isBadfilter = false) :
+    y ∉ live rules ↔ ∃ z ∈ rules, z.isBadfilter = true ∧ key z = key y := by
+  simp [live, cancels, hy, hb]
+
+/-! ### rule addition is monotone -/
+
+private theorem mem_live_insert (l1 l2 : List Rule) (x f : Rule) (hx : x.isBadfilter = false) :
+    f ∈ live (l1 ++ x :: l2) ↔
+      f ∈ live (l1 ++ l2) ∨ (f = x ∧ ¬ ∃ z ∈ l1 ++ l2, cancels z x = true) := by
+  have hc : ∀ y, cancels x y = false := by intro y; simp [cancels, hx]
+  unfold live
+  simp only [List.mem_filter, List.mem_append, List.mem_cons, List.any_append, List.any_cons, hc,
+    Bool.false_or, Bool.and_eq_true, Bool.not_eq_true', Bool.or_eq_false_iff, List.any_eq_false]
+  constructor
+  · rintro ⟨hm, hb, h1, h2⟩
+    rcases hm with hm | rfl | hm
+    · left; exact ⟨Or.inl hm, hb, h1, h2⟩
+    · by_cases hin : f ∈ l1 ∨ f ∈ l2
+      · left; exact ⟨hin, hb, h1, h2⟩
+      · right; refine ⟨rfl, ?_⟩
+        rintro ⟨z, hz, hcz⟩
+        rcases hz with hz | hz
+        · exact absurd hcz (by simp [h1 z hz])
+        · exact absurd hcz (by simp [h2 z hz])
+    · left; exact ⟨Or.inr hm, hb, h1, h2⟩
+  · rintro (⟨hm, hb, h1, h2⟩ | ⟨rfl, hn⟩)
+    · refine ⟨?_, hb, h1, h2⟩
+      rcases hm with hm | hm
+      · exact Or.inl hm
+      · exact Or.inr (Or.inr hm)
+    · refine ⟨Or.inr (Or.inl rfl), by simpa using hx, ?_, ?_⟩
+      · intro z hz; cases hcz : cancels z f with
+        | false => simp
+        | true => exact absurd ⟨z, Or.inl hz, hcz⟩ hn
+      · intro z hz; cases hcz : cancels z f with
+        | false => simp
+        | true => exact absurd ⟨z, Or.inr hz, hcz⟩ hn
+
+private theorem hit_insert (l1 l2 : List Rule) (x : Rule) (hx : x.isBadfilter = false) (c : Cat)
+    (q : Request) (tags : List Str) :
+    hit (l1 ++ x :: l2) c q tags = true ↔
+      hit (l1 ++ l2) c q tags = true ∨
+      ((¬ ∃ z ∈ l1 ++ l2, cancels z x = true) ∧ cat x = c ∧ x.matches q = true ∧ tagOk x tags = true) := by
+  rw [hit_iff, hit_iff]
+  constructor
+  · rintro ⟨f, hf, h1, h2, h3⟩
+    rcases (mem_live_insert l1 l2 x f hx).1 hf with hf | ⟨rfl, hn⟩
+    · exact Or.inl ⟨f, hf, h1, h2, h3⟩
+    · exact Or.inr ⟨hn, h1, h2, h3⟩
+  · rintro (⟨f, hf, h1, h2, h3⟩ | ⟨hn, h1, h2, h3⟩)
+    · exact ⟨f, (mem_live_insert l1 l2 x f hx).2 (Or.inl hf), h1, h2, h3⟩
+    · exact ⟨x, (mem_live_insert l1 l2 x x hx).2 (Or.inr ⟨rfl, hn⟩), h1, h2, h3⟩
+
+private theorem cat_exception_not_blocking (x : Rule) (h : x.isException = true) :
+    cat x ≠ .important ∧ cat x ≠ .tagged ∧ cat x ≠ .normal := by
+  unfold cat; simp only [h]
+  split; · simp
+  split; · simp
+  split; · simp
+  simp
+
+private theorem cat_nonexception (x : Rule) (h : x.isException = false) : cat x ≠ .exception := by
+  unfold cat; simp only [h]
+  split; · simp
+  split; · simp
+  split; · simp
+  simp only [Bool.false_eq_true, if_false]
+  split; · simp
+  split; · simp
+  split <;> simp
+
+/-- **adding an exception rule can never turn an allowed request into a blocked one** — for every
+    list, every insertion position, every tag set and request (the extra rule is not a badfilter). -/
+theorem add_exception_antitone (l1 l2 : List Rule) (x : Rule) (tags : List Str) (q : Request)
+    (hx : x.isBadfilter = false) (he : x.isException = true)
+    (h : blocked (l1 ++ x :: l2) tags q = true) : blocked (l1 ++ l2) tags q = true := by
+  rw [blocked_iff_spec] at h ⊢
+  obtain ⟨hs, h⟩ := h
+  refine ⟨hs, ?_⟩
+  obtain ⟨n1, n2, n3⟩ := cat_exception_not_blocking x he
+  have keep : ∀ c, c = Cat.important ∨ c = Cat.tagged ∨ c = Cat.normal → ∀ tg,
+      hit (l1 ++ x :: l2) c q tg = true → hit (l1 ++ l2) c q tg = true := by
+    intro c hc tg hh
+    rcases (hit_insert l1 l2 x hx c q tg).1 hh with h1 | ⟨_, h2, _⟩
+    · exact h1
+    · rcases hc with rfl | rfl | rfl
+      · exact absurd h2 n1
+      · exact absurd h2 n2
+      · exact absurd h2 n3
+  rcases h with h | ⟨hb, hex⟩
+  · exact Or.inl (keep _ (Or.inl rfl) _ h)
+  · right
+    constructor
+    · rcases hb with hb | hb | hb
+      · exact Or.inl (keep _ (Or.inl rfl) _ hb)
+      · exact Or.inr (Or.inl (keep _ (Or.inr (Or.inl rfl)) _ hb))
+      · exact Or.inr (Or.inr (keep _ (Or.inr (Or.inr rfl)) _ hb))
+    · cases hh : hit (l1 ++ l2) .exception q tags with
+      | false => rfl
+      | true =>
+        have := (hit_insert l1 l2 x hx .exception q tags).2 (Or.inl hh)
+        rw [this] at hex; cases hex
+
+/-- **adding a blocking (non-exception) rule can never turn a blocked request into an allowed one.** -/
+theorem add_blocking_monotone (l1 l2 : List Rule) (x : Rule) (tags : List Str) (q : Request)
+    (hx : x.isBadfilter = false) (he : x.isException = false)
+    (h : blocked (l1 ++ l2) tags q = true) : blocked (l1 ++ x :: l2) tags q = true := by
+  rw [blocked_iff_spec] at h ⊢
+  obtain ⟨hs, h⟩ := h
+  refine ⟨hs, ?_⟩
+  have up : ∀ c tg, hit (l1 ++ l2) c q tg = true → hit (l1 ++ x :: l2) c q tg = true :=
+    fun c tg hh => (hit_insert l1 l2 x hx c q tg).2 (Or.inl hh)
+  rcases h with h | ⟨hb, hex⟩
+  · exact Or.inl (up _ _ h)
+  · right
+    constructor
+    · rcases hb with hb | hb | hb
+      · exact Or.inl (up _ _ hb)
+      · exact Or.inr (Or.inl (up _ _ hb))
+      · exact Or.inr (Or.inr (up _ _ hb))
+    · cases hh : hit (l1 ++ x :: l2) .exception q tags with
+      | false => rfl
+      | true =>
+        rcases (hit_insert l1 l2 x hx .exception q tags).1 hh with h1 | ⟨_, h2, _⟩
+        · rw [h1] at hex; cases hex
+        · exact absurd h2 (cat_nonexception x he)
+
+/-! ### non-vacuity: a concrete list where every hypothesis is met and the conclusion is non-trivial -/
+private def mkRule (maskBits : List Nat) (pat : String) (id : Nat) : Rule :=
+  { mask := maskBits.foldl (fun m b => m ||| (1 <<< b)) 0, filter := .simple pat.toList, hostname := none,
+    domains := none, notDomains := none, domainsUnion := none, notDomainsUnion := none,
+    modifier := none, tag := none, id := id.toUInt64 }
+private def base : List Nat := [Gen.FROM_SCRIPT, Gen.FROM_HTTPS, Gen.FROM_HTTP, Gen.THIRD_PARTY, Gen.FIRST_PARTY]
+private def q0 : Request := mkRequest "script".toList "https://a.com/ads.js".toList "https".toList "a.com".toList
+  "a.com".toList false "https://a.com/ads.js".toList
+example : blocked [mkRule base "ads" 1] [] q0 = true := by decide
+example : blocked ([mkRule base "ads" 1] ++ mkRule (Gen.IS_EXCEPTION :: base) "ads.js" 2 :: []) [] q0 = false := by decide
+example : (mkRule (Gen.IS_EXCEPTION :: base) "ads.js" 2).isException = true := by decide
+
 end Adb.Net
